@@ -42,7 +42,7 @@ from radical.pilot.task_description import (TASK_FUNC, TASK_METH, TASK_EVAL,
                                             TASK_EXEC, TASK_PROC, TASK_SHELL)
 import radical.pilot as rp
 
-OUTCOMES = ['ok', 'raise', 'hang', 'late', 'preempt', 'badmode', 'spawn_fail', 'die']
+OUTCOMES = ['ok', 'raise', 'hang', 'late', 'preempt', 'badmode', 'spawn_fail', 'die', 'quick']
 MAX_STEPS = 400
 
 
@@ -207,6 +207,15 @@ def make_fakes(H):
             H.started_order.append(self._uid)
             H.pending.append(self)
             H.on_spawn(self._uid, task)
+            if H.outcome.get(self._uid) == 'quick':
+                # a quick child: it has run and queued its result before the parent is back from
+                # start().  The result watcher (another thread) takes the result at once - unless
+                # it has to wait for the pool lock, then it takes it once the lock is free
+                H.pending.remove(self)
+                self._run()
+                lock = getattr(H.w, '_plock', None)
+                if lock is not None and not lock.locked():
+                    H.watch(1)
 
         def _run(self):
             assert not self._ran
@@ -537,14 +546,14 @@ def run_worker_case(case):
                 # the one result tells the truth about the scripted outcome
                 for t in H.results:
                     oc, rc = H.outcome[t['uid']], t.get('exit_code')
-                    if oc == 'ok' and rc != 0:
+                    if oc in ('ok', 'quick') and rc != 0:
                         res.fail('result_failed_but_request_succeeded:%s' % oc,
                                  '%s: exit_code %r exc %r' % (t['uid'], rc, t.get('exception')))
                     if oc in ('raise', 'hang', 'badmode', 'spawn_fail', 'die'):
                         if rc == 0 or (rc is None and not t.get('exception')):
                             res.fail('result_ok_but_request_failed:%s' % oc,
                                      '%s: exit_code %r exc %r' % (t['uid'], rc, t.get('exception')))
-                    if oc == 'ok' and rc == 0 and t.get('return_value') != \
+                    if oc in ('ok', 'quick') and rc == 0 and t.get('return_value') != \
                             int(t['uid'].split('.')[1]) + 1:
                         res.fail('result_wrong_value', '%s: %r' % (t['uid'], t.get('return_value')))
     finally:
@@ -557,7 +566,7 @@ def run_worker_case(case):
 
     ocs = set(H.outcome[u] for u in accepted)
     res.nontrivial = (stats['max_par'] >= 2
-                      and bool(ocs & {'raise', 'hang', 'late', 'preempt', 'badmode', 'spawn_fail', 'die'}))
+                      and bool(ocs & {'raise', 'hang', 'late', 'preempt', 'badmode', 'spawn_fail', 'die', 'quick'}))
     res.label('worker:cores=%d' % n_cores, 'worker:gpus=%d' % n_gpus,
               'worker:max_parallel=%d' % min(stats['max_par'], 4),
               'worker:requests=%s' % ('1-3' if len(reqs) <= 3 else '4-8' if len(reqs) <= 8 else '9+'))
